@@ -10,11 +10,15 @@ CONSTANTS
   MaxOps = 3
   Variant = "auto"
   Steps <- MCSteps
+  Algo = "lstsq"
+  Garbage = 1000
   Record = FALSE
   Temps = {200, 1000}
 INVARIANT AlwaysFresh
 INVARIANT NormalEquations
 INVARIANT Reproduces
+INVARIANT FitIsContraction
+INVARIANT OffsetsBounded
 INVARIANT KeysAreDescriptors
 INVARIANT TrefIsMean
 VIEW View
